@@ -103,6 +103,14 @@ theorem rtt_run {now : Nat} {classic : Bool} {A : Op → Prop} {l l' : FLink F}
   | take _ _ ih => exact keep ih (.of_eq (rtt_takeBatch _ now))
   | mark _ _ ih => exact keep ih (SameFilter.set _ 0 false)
   | reconnect ha _ ih => exact .inr ⟨ha, .of_eq (rtt_reconnectLink _ now)⟩
+  | @attemptFail a _ _ ih =>
+    -- `record_attempt` keeps the tracker, `mark_for_recovery` only clears the probe bookkeeping
+    have hra : (a.recordAttempt now).rtt = a.rtt := by unfold FLink.recordAttempt; split <;> rfl
+    refine keep ih ?_
+    have h : SameFilter (a.recordAttempt now).rtt (Hk.failedLink a now).rtt :=
+      SameFilter.set (a.recordAttempt now).rtt 0 false
+    rw [hra] at h
+    exact h
   | reg3 _ _ ih => exact keep ih (.refl _)
   | kaSend _ _ ih => exact keep ih (rtt_keepalivePacket _ now)
   | recover _ _ ih => exact keep ih (.refl _)
